@@ -128,6 +128,63 @@ def run_workers(prop, specs, server_bin, timeout):
     return results, use_ns
 
 
+REGISTRY_SCENARIOS_QUICK = ["one-task", "two-problems", "same-task-twice", "parse-and-solve", "joined-names-coincide", "two-strategies", "two-users-one-problem-name"]
+REGISTRY_SCENARIOS_THOROUGH = REGISTRY_SCENARIOS_QUICK + ["three-tasks", "two-listers", "same-solve-twice"]
+
+
+def run_registry(tier, only=None, bound=None):
+    """exhaustive interleavings (loom) of the server's registry of running tasks, compiled from the working tree's own
+    source text; returns (result record or None, note for the evidence)"""
+    exe = os.environ.get("RUNLOCK_BIN")
+    if not exe:
+        return None, {"bound_to_code": False, "skipped": os.environ.get("RUNLOCK_SKIPPED", "registry harness not built")}
+    t0 = time.time()
+    scen = [only] if only else (REGISTRY_SCENARIOS_QUICK if tier == "quick" else REGISTRY_SCENARIOS_THOROUGH)
+    # quick: every schedule with at most 2 preemptions; thorough: at most 4 (3 for the scenarios with four threads beyond
+    # the quick list). Executions always run to completion. One process per scenario.
+    def bound_of(sc):
+        if bound is not None:
+            return bound
+        if tier == "quick":
+            return 2
+        return 4 if sc in REGISTRY_SCENARIOS_QUICK else 3
+    procs = [(sc, bound_of(sc), subprocess.Popen([exe, tier, "--scenario", sc, "--bound", str(bound_of(sc))], stdout=subprocess.PIPE, stderr=subprocess.PIPE, text=True)) for sc in scen]
+    viols, per, schedules, outcomes, nontrivial, items = [], [], 0, 0, 0, []
+    for sc, b, p in procs:
+        try:
+            out, err = p.communicate(timeout=1500)
+        except subprocess.TimeoutExpired:
+            p.kill()
+            machinery("the registry exploration of scenario %s did not finish" % sc)
+        try:
+            d = json.loads(out)
+        except ValueError:
+            machinery("the registry harness ended without a result for scenario %s (status %s): %s" % (sc, p.returncode, (err or out)[-300:]))
+        if not d.get("bound"):
+            return None, {"bound_to_code": False, "skipped": d.get("why", "?")}
+        if d.get("machinery"):
+            machinery("registry harness: " + d["machinery"])
+        items = d.get("items", items)
+        schedules += d["schedules"]
+        outcomes += d["distinct_outcomes"]
+        nontrivial += d["nontrivial"]
+        per.append({"scenario": sc, "preemption_bound": b, "schedules": d["schedules"], "distinct_outcomes": d["distinct_outcomes"]})
+        for v in d["violations"]:
+            viols.append({"kind": v["kind"], "msg": v["msg"], "case": {"type": "registry-interleavings", "scenario": sc, "preemption_bound": b}})
+    # one record per (kind, scenario)
+    seen, firsts = set(), []
+    for v in viols:
+        k = (v["kind"], v["case"]["scenario"])
+        if k not in seen:
+            seen.add(k)
+            firsts.append(v)
+    res = {"ok": True, "violations": firsts, "requests": 0, "states": outcomes, "transitions": schedules, "nontrivial": nontrivial, "outcomes": [],
+           "wall": time.time() - t0, "capped": False, "completed_depth": None, "spec": {"mode": "registry-interleavings", "tier": tier}}
+    note = {"bound_to_code": True, "source_items_compiled": items, "schedules": schedules, "distinct_outcomes": outcomes, "per_scenario": per,
+            "rule": "loom (DPOR, preemption-bounded, every execution runs to completion) over threads that use the server's own RunningGuard / RunningInfo / Task / listing code, extracted from server/src at build time and compiled against loom's Mutex: blocking tasks = register, compute (a scheduling point), unregister; GET = lock, build the listing (a scheduling point while the lock is held), unlock; admission test of solve = lock, contains, unlock. Checked in every schedule: a listing / admission test reports a task only if a task with exactly that user, problem and kind was registered and had not ended before the request began; once all tasks have ended the registry and every listing are empty; no deadlock, no panic, no poisoned lock. Handler code around these expressions is not part of the harness (it is exercised through HTTP by the other explorers)."}
+    return res, note
+
+
 def finish(prop, tier, seed, t0, results, meta):
     for r in results:
         if not r.get("ok"):
@@ -219,13 +276,23 @@ def main():
         results, use_ns = run_workers(prop, specs, server_bin, 900 if tier == "quick" else 3000)
         meta = mod.meta(tier, seed, results)
         meta["network_namespaces"] = use_ns
+        reg, note = run_registry(tier)
+        meta["registry_interleavings"] = note
+        if reg is not None:
+            results.append(reg)
         finish(prop, tier, seed, t0, results, meta)
     if a[0] == "replay":
         rec = json.load(open(a[1]))
         prop = rec["property"]
         spec = {"replay": rec["case"], "tier": "quick", "seed": 0, "shard": 0, "of": 1}
         outs = []
-        for _ in range(2):
+        if rec["case"].get("type") == "registry-interleavings":
+            for _ in range(2):
+                reg, note = run_registry("thorough", only=rec["case"]["scenario"], bound=rec["case"]["preemption_bound"])
+                if reg is None:
+                    machinery("registry harness not bound to the code: %s" % note.get("skipped"))
+                outs.append(sorted((v["kind"], v["msg"]) for v in reg["violations"]))
+        for _ in range(0 if outs else 2):
             results, _ = run_workers(prop, [spec], server_bin, 600)
             if not results[0].get("ok"):
                 machinery(results[0].get("machinery", "worker failed"))
